@@ -27,7 +27,8 @@ PROPERTIES = {
                "(score desc, total length asc, index asc), index order for the empty pattern; cfg-gated "
                "get_unchecked-on-unpublished assertion; any panic on a pool thread.",
         assumptions=COMMON_ASSUMPTIONS,
-        probes_expected=["run.canceled", "tick.stale_run_discarded", "join.stolen", "boxcar.cas_lost", "take_any_while.stopped"],
+        probes_expected=["run.canceled", "tick.stale_run_discarded", "join.stolen", "boxcar.cas_lost", "take_any_while.stopped",
+                         "worker.heapsort_on_killer_batch"],
         miri=[MIRI_NUCLEO],
     ),
     "C07": dict(
@@ -38,7 +39,7 @@ PROPERTIES = {
                "asc, index asc). Checkpoints that cannot become idle because a fault left a never-published index "
                "are counted as vacuous; without such a fault not becoming idle in 48 ticks is a violation.",
         assumptions=COMMON_ASSUMPTIONS,
-        probes_expected=["oracle.c07", "run.canceled", "quiesce.vacuous"],
+        probes_expected=["oracle.c07", "run.canceled", "quiesce.vacuous", "worker.heapsort_on_killer_batch"],
     ),
     "C08": dict(
         quick_runs=500_000, thorough_runs=8_000_000, level="exploration",
